@@ -72,6 +72,12 @@ pub fn s_dir(k: usize) -> StrSpace {
     let m = ["%YAML ", "%TAG ", "%FOO ", "1", "2", "9999999999", "4294967295", "4294967296", ".", "!e! ", "!! ", "! ", "tag:e: ", "\n", "--- a\n", "--- !e!x a\n", " ", "#c", "...\n"];
     StrSpace::chunks(&format!("dir^{k}"), m.iter().map(|s| s.to_string()).collect(), k)
 }
+/// `S-esc(K)`: escape openers of double-quoted scalars and tags followed by ASCII hex digits, other
+/// letters and digits of other scripts (which `char::is_numeric` accepts and `to_digit(16)` does not)
+pub fn s_esc(k: usize) -> StrSpace {
+    let m = ["\"", "\\x", "\\u", "\\U", "4", "1", "F", "g", "\u{663}", "\u{ff13}", "\u{b2}", "\u{ff21}", "%", "!", "!<", ">", " ", "a", "\n"];
+    StrSpace::chunks(&format!("esc^{k}"), m.iter().map(|s| s.to_string()).collect(), k)
+}
 pub fn s_tok(k: usize) -> StrSpace {
     StrSpace::chunks(&format!("tok^{k}"), tok_menu(), k)
 }
